@@ -74,4 +74,21 @@ def handleE2EArp : List String → Option String
     pure s!"{m}\t{b2s (obs == m)}"
   | _ => none
 
+/-- `e2esigint cmdline delayMs boundMs canon|raw` (harness/cmd/sxdiff/e2esig.go): a rate-limited run of the real binary
+    that got SIGINT `delayMs` after its start.  By `C12_bounded_return` / `C12_no_panic` / `C12_whole_records` the scan call
+    returns, nothing panics and the output holds whole records only; at the process boundary: the process was still
+    scanning when the signal came, ended by itself, within the bound, with no panic text and complete lines. -/
+def handleE2ESigint : List String → Option String
+  | [_cmd, _delay, bound, obsAll] => do
+    let bound ← parseInt? bound
+    match obsAll.splitOn "|" with
+    | [canon, raw] =>
+      let want := "ended=1;panic=0;lines=ok;running=1"
+      let v := canon == want && (match kv raw "ms" with
+        | some ms => decide (ms ≤ bound)
+        | none => false)
+      pure s!"{want}|{raw}\t{b2s v}"
+    | _ => none
+  | _ => none
+
 end Driver.E2E
